@@ -44,6 +44,9 @@ func driveTimerPanic(opt *Options) error {
 	if opt.Extra["child"] == "defaults" {
 		return timerDefaultsChild(opt)
 	}
+	if opt.Extra["child"] == "firstuse" {
+		return timerFirstUseChild(opt)
+	}
 	if opt.Extra["mode"] == "long" {
 		return timerLongDelays(opt)
 	}
@@ -99,6 +102,38 @@ func driveTimerPanic(opt *Options) error {
 		}(k, sc)
 	}
 	wg.Wait()
+	// fresh processes whose very FIRST Calls come from many goroutines at once (whatever the package sets up on first use)
+	{
+		const kids = 10
+		fu := make([]res, kids)
+		var fwg sync.WaitGroup
+		for k := 0; k < kids; k++ {
+			fwg.Add(1)
+			sem <- struct{}{}
+			go func(k int) {
+				defer fwg.Done()
+				defer func() { <-sem }()
+				raw := fmt.Sprintf("%s.rawf%d", opt.Out, k)
+				defer os.Remove(raw)
+				cmd := exec.Command(os.Args[0], "drive", "timerpanic", "-out", raw, "-x", "child=firstuse", "-seed", fmt.Sprint(opt.Seed+int64(k)))
+				var stderr bytes.Buffer
+				cmd.Stderr = &stderr
+				runErr := cmd.Run()
+				evs, done, err := readRawTimerEvents(raw)
+				if err != nil {
+					fu[k].err = err
+					return
+				}
+				if runErr != nil || !done {
+					// the child died or did not finish: a library call panicked in a goroutine of the child
+					evs = append(evs, map[string]any{"e": "Start", "i": 0, "t": 0, "panic": tailStr(stderr.String(), 300)})
+				}
+				fu[k] = res{evs: evs}
+			}(k)
+		}
+		fwg.Wait()
+		results = append(results, fu...)
+	}
 	// one more child: the package exactly as it comes up (no harness configuration of pool or wake channel at all)
 	{
 		raw := opt.Out + ".rawd"
@@ -436,5 +471,63 @@ func timerLongDelays(opt *Options) error {
 	for _, e := range evs {
 		tw.Emit(e)
 	}
+	return nil
+}
+
+
+// timerFirstUseChild: the first use of the package in this process is made by 16 goroutines at the same instant (spin
+// barrier), 4 Calls each; then every other future is cancelled (before it is due).  Cancel is precise: every future that
+// was not cancelled is started; nothing panics.
+func timerFirstUseChild(opt *Options) error {
+	f, err := os.OpenFile(opt.Out, os.O_CREATE|os.O_WRONLY|os.O_TRUNC|os.O_APPEND, 0o644)
+	if err != nil {
+		return err
+	}
+	var mu sync.Mutex
+	emit := func(m map[string]any) {
+		b, _ := json.Marshal(m)
+		mu.Lock()
+		f.Write(append(b, '\n'))
+		mu.Unlock()
+	}
+	start := time.Now()
+	now := func() int64 { return time.Since(start).Microseconds() }
+	emit(map[string]any{"e": "Begin", "late": 0, "L": 0, "Q": 1500000, "idle": 30000000, "slack": 1000000, "maxw": 10, "unit": 0, "gap": 0})
+	const G, per = 16, 4
+	futs := make([]timeout.Future, G*per)
+	var gate int32
+	var wg sync.WaitGroup
+	for g := 0; g < G; g++ {
+		wg.Add(1)
+		go func(g int) {
+			defer wg.Done()
+			for atomic.LoadInt32(&gate) == 0 {
+			}
+			for j := 0; j < per; j++ {
+				i := g*per + j
+				d := time.Duration(150+10*i) * time.Millisecond
+				tb := now()
+				futs[i] = timeout.Call(func() { emit(map[string]any{"e": "Start", "i": i, "t": now()}) }, d)
+				emit(map[string]any{"e": "Call", "i": i, "d": d.Microseconds(), "tb": tb, "ta": now()})
+			}
+		}(g)
+	}
+	time.Sleep(20 * time.Millisecond)
+	atomic.StoreInt32(&gate, 1)
+	wg.Wait()
+	for i := 0; i < G*per; i += 2 {
+		func() {
+			defer func() {
+				if p := recover(); p != nil {
+					emit(map[string]any{"e": "CancelRet", "i": i, "t": now(), "panic": fmt.Sprint(p)})
+				}
+			}()
+			futs[i].Cancel()
+			emit(map[string]any{"e": "CancelRet", "i": i, "t": now()})
+		}()
+	}
+	time.Sleep(time.Duration(150+10*G*per)*time.Millisecond + 1700*time.Millisecond)
+	emit(map[string]any{"e": "Quiesce", "t": now()})
+	emit(map[string]any{"e": "Done"})
 	return nil
 }
